@@ -64,4 +64,12 @@ CHECKS = {
                      A("c07", variant="cap", params={"section": 1, "valsize": 40}, what="heap cap, 40-byte states"),
                      A("c07", variant="cap", params={"section": 1, "valsize": 1}, what="heap cap, 1-byte states")],
     },
+    "C19": {
+        "level": "model_checking",
+        "text": "Module-level exhaustive enumeration against the real websocket.c + compression.c + in-tree zlib (ASan/UBSan): every extension offer of the RFC 7692 parameter lattice in every parameter order (plus malformed, duplicated, unknown and multi-offer headers) x 3 compression levels is judged by an RFC 7692 section 7.1 legality oracle; every accepted parameter set x 7 payloads x every fragmentation into <= 3 fragments x 3 consecutive messages round-trips in both directions against zlib as the reference; every compressed stream of <= 2 bytes and every single-byte substitution of valid messages must be rejected or decoded without a sanitizer report or unbounded memory.",
+        "note": "Trusted: zlib as reference inflater/deflater, the in-memory buffered_reader of the harness, ASan/UBSan. In the daemon the compression level is always 0, so this code is reachable only through the module harness. Bounded by the payload and fragment-size alphabets. Four known findings (tiny payloads server->client, empty fragments) are listed in known_findings.txt.",
+        "technique": "exhaustive bounded enumeration of configurations, inputs and fragmentations against a reference implementation (module-level model checking harness)",
+        "quick": [B("c19", what="negotiation product, level-2 round trips, <=1-byte corrupt streams + substitutions on one message")],
+        "thorough": [B("c19", what="all levels, full window lattice, <=2-byte corrupt streams + substitutions on 3 messages", deadline=1800)],
+    },
 }
